@@ -180,13 +180,15 @@ def copyRead : Nat → Inp → Option CopyRes × Inp
     | (.rerr, s) =>
       (match s.tail with
        | .eof false => (some .eof, s)                              -- io.EOF looks like CopyDone
-       | .eof true => (some (.err (.lib errUnexpectedEOF)), s)
+       -- the bytes of the incomplete message are consumed by the failing read: the next
+       -- read meets a clean end of stream
+       | .eof true => (some (.err (.lib errUnexpectedEOF)), { s with tail := .eof false })
        | _ => (some (.err (.lib errRead)), s))
     | (.item (.big _ size full), s) =>
       if full then (some (.err (.lib (errSizeExceeded s.L size))), s)
       else (match s.tail with
         | .wait => (none, s)                                   -- blocked inside Slurp
-        | .eof _ => (some (.err (.lib errUnexpectedEOF)), s)
+        | .eof _ => (some (.err (.lib errUnexpectedEOF)), { s with tail := .eof false })
         | .rerr => (some (.err (.lib errRead)), s))
     | (.item (.msg t body), s) =>
       if t = ch 'H' ∨ t = ch 'S' then copyRead fuel s
